@@ -705,11 +705,37 @@ func validate(c *mcx.Ctx, cs Case) (obs, sig, class string) {
 	for _, v := range vs {
 		if v.Name == cs.Viol {
 			v.Apply(mb)
-			if err := intoto.ValidateMetablock(*mb); err == nil {
-				return "accepted", "C12|validator|invalid-metadata-accepted|" + cs.Viol, "invalid"
-			} else {
-				return "refused: " + err.Error(), "", "invalid"
+			// refused whichever entry of a map the validator happens to look at first: every map range of the
+			// validator is run with each of its entries in front (ascending and descending behind it)
+			var last string
+			for first := 0; first < 6; first++ {
+				for _, desc := range []bool{false, true} {
+					intoto.VerifPermHook = func(site string, n int) []int {
+						p := make([]int, 0, n)
+						if first < n {
+							p = append(p, first)
+						}
+						for i := 0; i < n; i++ {
+							j := i
+							if desc {
+								j = n - 1 - i
+							}
+							if j != first || first >= n {
+								p = append(p, j)
+							}
+						}
+						return p
+					}
+					err := intoto.ValidateMetablock(*mb)
+					intoto.VerifPermHook = nil
+					c.Impl(1)
+					if err == nil {
+						return fmt.Sprintf("accepted (map entries visited with entry %d first, descending=%v)", first, desc), "C12|validator|invalid-metadata-accepted|" + cs.Viol, "invalid"
+					}
+					last = err.Error()
+				}
 			}
+			return "refused: " + last, "", "invalid"
 		}
 	}
 	return "violation not found", "", "skip"
